@@ -31,6 +31,7 @@ import (
 	"sort"
 	"strings"
 	"sync"
+	"sync/atomic"
 	"time"
 
 	zrsa "github.com/zmap/zcrypto/rsa"
@@ -56,6 +57,9 @@ type keyInfo struct {
 	bits, k int
 	stdOK   bool
 	gen     bool
+	lite    bool // reduced unit set (quick tier: expensive or narrowly targeted keys)
+	micro   bool // lite, and signatures are mutated without the bit / byte menu (quick tier: exponent longer than the modulus, every public operation is a full-size exponentiation)
+	pssOnly bool // quick tier: PSS units only (keys that exist for the width of the PSS top-bit mask)
 }
 
 func newKeyInfo(name string, z *zrsa.PrivateKey, gen bool) *keyInfo {
@@ -513,10 +517,18 @@ func quickKeys() []string {
 	return out
 }
 
+// quickLite: fixtures that the quick tier runs with the reduced ("lite") unit set: the 5-prime
+// 2048-bit key (the 4- and 5-prime keys get the full unit set in thorough; quick also has a
+// 3-prime fixture and a 3-prime generated key with the full set).
+var quickLite = []string{"rsa2048p5"}
+
 type genSpec struct {
 	name          string
 	nprimes, bits int
 }
+
+// startGodebug is GODEBUG as the runtime saw it at process start (fips140 is fixed then).
+var startGodebug = os.Getenv("GODEBUG")
 
 func main() {
 	os.Setenv("GODEBUG", "rsa1024min=0") // crypto/rsa: allow the 512-bit fixture (also set by the //go:debug line)
@@ -527,15 +539,25 @@ func main() {
 	}
 	ev.Main("C23", "model_checking", func(c *ev.Ctx) {
 		c.Rule("differential enumeration per key × form{plain,precomputed,swapped} × operation × parameter alphabet; " +
+			"keys: fixtures 512..2048 bits (thorough: ..4096), 1025 bits, 3 primes, exponents 3, 2^31-1, 2^32+15, 256 bits; a 5-prime 2048-bit fixture (lite unit set; 4- and 5-prime keys full in thorough); harness-built deterministic keys of 1023 and 1030 bits (lite) and 1018..1021 bits (PSS units only: 2..7 masked top bits of EM between them), exponents just above 2^31 (lite; just below 2^32 in thorough) and longer than the modulus (2^1029+.., micro: no bit/byte mutation menu in quick); keys from zcrypto's own generator (2 and 3 primes; 4 and 5 in thorough); " +
 			"signatures/ciphertexts: identity + every single-bit flip (keys <= 2048 bits; all keys in thorough) or byte substitutions {00,ff,^b} at every offset + {x+N, N-x, 0, 1, N-1, N} + length {prepend/append 00, drop first/last, empty}; " +
-			"encoded-message deviations (one field off the valid EM) for PKCS#1 v1.5 enc/sig, OAEP, PSS; raw private/public operation on {0..3, N-1..N-4, (N±1)/2, primes and their multiples, every 2^i, every 2^i-1, 64 fixed vectors, out-of-range values}; " +
-			"malformed public keys N∈{nil,0,1,-N} × E∈{nil,0,1,-1,-65537,2,65536} × public operations × signature shapes. " +
+			"PKCS#1 v1.5 signatures under every crypto.Hash 0..19 (no waiver: what the oracle signs zcrypto must sign and verify); OAEP with SHA-1/SHA-256 × labels {none, x} and SHA-256/384/512 × a 32-octet label; PSS salt modes, wrong-length digests, textbook salts; " +
+			"encoded-message deviations (one field off the valid EM) for PKCS#1 v1.5 enc/sig, OAEP, PSS (incl. 01||EM for 8k+1-bit moduli, first of 256 salts with EM < N); raw private/public operation on {0..3, N-1..N-4, (N±1)/2, primes and their multiples, every 2^i, every 2^i-1, 64 fixed vectors, out-of-range values}; " +
+			"legacy random argument {nil, live, failing reader} on every API documenting it as ignored; failing readers (after 0, 1, need-1 bytes) on every API that consumes randomness, judged against crypto/rsa on the same reader; " +
+			"malformed public keys N∈{nil,0,1,-N} × E∈{nil,0,1,-1,-65537,2,65536} × public operations × signature shapes AND × private-key operations (Sign*, Decrypt*, PrivateKey.Sign/Decrypt, Validate; CRT values present and absent) × ciphertext shapes; Size/Equal/Public (no error result) recorded next to crypto/rsa. " +
 			"distinct non-trivial = cases in which zcrypto produced/accepted a value that the oracle then validated")
-		c.Assume("crypto/rsa (Go standard library of the toolchain) is the primary oracle whenever 2 <= E <= 2^31-1; GODEBUG rsa1024min=0 so that it accepts the 512-bit fixture",
+		c.Assume("crypto/rsa (Go standard library of the toolchain) is the primary oracle whenever 2 <= E <= 2^31-1; GODEBUG rsa1024min=0 so that it accepts the 512-bit fixture; a start-up probe turns an unusable oracle (GODEBUG fips140=only, ...) into CHECK-BROKEN, never into a verdict",
 			"textbook reference (RFC 8017 encodings, square-and-multiply over math/big Mul/Mod, every private result proven by m^E = c) is the oracle for larger exponents and a second opinion elsewhere; the two oracles are required to agree (else CHECK-BROKEN)",
-			"the statement's malformed values are zero, negative or missing N/E: for those an error is demanded; for N=1, E=1 and even E only 'no panic' is demanded (statement silent)",
+			"validity of generated and harness-built keys is judged by the definition (product of distinct probable primes, E*D = 1 mod every p-1) with harness arithmetic; a key that crypto/rsa refuses to load (e.g. a future release without multi-prime keys) is compared with the textbook reference only and the run is marked incomplete",
+			"the statement's malformed values are zero, negative or missing N/E: for those an error is demanded from every operation that can return one, public-key and private-key alike; for N=1, E=1 and even E only 'no panic' is demanded (statement silent); methods without an error result (Size, Equal) are recorded only",
 			"ciphertexts whose octet length differs from k: statement silent, zcrypto may accept or reject, an accepted plaintext must be the correct one",
-			"hash functions unknown to zcrypto's PKCS#1 v1.5 table must be refused consistently (sign and verify); MD5, SHA-1, SHA-2, MD5+SHA1, RIPEMD-160 and 'none' must work")
+			"a hash function that the oracle signs PKCS#1 v1.5 with must work in zcrypto too (sign and verify); hash functions the oracle refuses must be refused")
+
+		// false-alarm guard: an oracle that refuses what it is asked for (GODEBUG=fips140=only, a
+		// toolchain without the 512-bit escape hatch) makes the check unusable, it says nothing about zcrypto
+		if err := oracleUsable(startGodebug); err != nil {
+			c.Broken("the crypto/rsa oracle is not usable in this environment: %v", err)
+		}
 
 		keys := map[string]*keyInfo{}
 		var names []string
@@ -579,10 +601,50 @@ func main() {
 			keys[n] = newKeyInfo(n, fx.ZRSA(n), false)
 			names = append(names, n)
 		}
+		if c.Quick() {
+			for _, n := range quickLite {
+				keys[n] = newKeyInfo(n, fx.ZRSA(n), false)
+				keys[n].lite = true
+				names = append(names, n)
+			}
+		}
+		// deterministic keys built by the harness (own prime search over fx.NewRand):
+		// moduli of 1023 and 1030 bits with the full unit set (PSS masks 2 resp. 3 top bits of EM,
+		// k*8-1 and k*8+6 bits), 1018..1021 bits lite (7, 6, 5, 4 masked bits), a 1025-bit modulus
+		// is a fixture; exponents just beyond crypto/rsa's limit (first usable odd E >= 2^31+1,
+		// and >= 2^32-13) and an exponent LONGER than the modulus (>= 2^1029), on the primes of rsa1024.
+		add := func(ki *keyInfo, profile string) {
+			if err := validByDefinition(ki); err != nil {
+				c.Broken("harness-built key %s is not a valid RSA key: %v", ki.name, err)
+			}
+			if c.Quick() {
+				switch profile {
+				case "lite":
+					ki.lite = true
+				case "micro":
+					ki.lite, ki.micro = true, true
+				case "pss":
+					ki.lite, ki.pssOnly = true, true
+				case "thorough-only":
+					return
+				}
+			}
+			keys[ki.name] = ki
+			names = append(names, ki.name)
+		}
+		add(detKey("det1023", 1023), "lite")
+		add(detKey("det1030", 1030), "lite")
+		for _, b := range []int{1018, 1019, 1020, 1021} {
+			add(detKey(fmt.Sprintf("det%d", b), b), "pss")
+		}
+		add(expKey("rsa1024e32lo", "rsa1024", new(big.Int).Lsh(big.NewInt(1), 31)), "lite")
+		add(expKey("rsa1024e32hi", "rsa1024", new(big.Int).Sub(new(big.Int).Lsh(big.NewInt(1), 32), big.NewInt(13))), "thorough-only")
+		add(expKey("rsa1024e1030", "rsa1024", new(big.Int).Lsh(big.NewInt(1), 1029)), "micro")
+
 		// keys produced by zcrypto's own generator (deterministic byte stream; the generator
 		// itself may consume one extra byte at its own discretion, the key is recorded in every witness)
 		gens := ev.Pick(c, []genSpec{{"gen512", 2, 512}, {"gen1024p3", 3, 1024}},
-			[]genSpec{{"gen512", 2, 512}, {"gen1024", 2, 1024}, {"gen1024p3", 3, 1024}, {"gen2048", 2, 2048}, {"gen2048p4", 4, 2048}})
+			[]genSpec{{"gen512", 2, 512}, {"gen1024", 2, 1024}, {"gen1024p3", 3, 1024}, {"gen2048", 2, 2048}, {"gen2048p4", 4, 2048}, {"gen2048p5", 5, 2048}})
 		for _, g := range gens {
 			var k *zrsa.PrivateKey
 			var err error
@@ -600,11 +662,13 @@ func main() {
 				c.Violation("GenerateMultiPrimeKey returned a key that is invalid or not of the requested shape",
 					witness{Unit: "gen/" + g.name, Detail: fmt.Sprintf("Validate=%v bits=%d primes=%d precomputed=%v", verr, k.N.BitLen(), len(k.Primes), k.Precomputed.Dp != nil), Gen: ki.export()})
 			}
-			if s := ki.std(); s == nil || s.k.Validate() != nil {
-				c.Violation("generated key is refused by crypto/rsa Validate", witness{Unit: "gen/" + g.name, Gen: ki.export()})
+			// validity is judged by the definition (harness arithmetic), not by what a given
+			// version of crypto/rsa is willing to load: multi-prime keys are deprecated there
+			if derr := validByDefinition(ki); derr != nil {
+				c.Violation("GenerateMultiPrimeKey returned a key that is not a valid RSA key (RFC 8017 section 3)", witness{Unit: "gen/" + g.name, Detail: derr.Error(), Gen: ki.export()})
 				continue
 			}
-			c.Outcome("generated-key:valid-in-both", 1)
+			c.Outcome("generated-key:valid-by-definition", 1)
 			keys[g.name] = ki
 			names = append(names, g.name)
 		}
@@ -623,20 +687,40 @@ func main() {
 			}
 			if s := ki.std(); s != nil {
 				if err := s.k.Validate(); err != nil {
+					if len(ki.primes) > 2 || ki.gen {
+						// out of the oracle's domain (e.g. a Go release that drops multi-prime keys):
+						// the textbook reference alone judges this key; the run is not complete.
+						ki.stdOK = false
+						c.Outcome("oracle:crypto/rsa refuses key "+n+" (textbook reference only)", 1)
+						c.Incomplete(fmt.Sprintf("crypto/rsa refuses key %s (%v): compared with the textbook reference only", n, err))
+						continue
+					}
 					c.Broken("crypto/rsa refuses fixture %s: %v", n, err)
 				}
+				c.Outcome("oracle:crypto/rsa loads the key", 1)
+			} else {
+				c.Outcome("oracle:exponent beyond crypto/rsa (textbook reference only)", 1)
 			}
 		}
 
+		var unitsDone atomic.Int64
 		runAll := func(us []unit) bool {
 			sort.SliceStable(us, func(i, j int) bool { return us[i].cost > us[j].cost })
-			return c.Parallel(len(us), func(w, i int) {
+			before := unitsDone.Load()
+			ok := c.Parallel(len(us), func(w, i int) {
 				t0 := time.Now()
 				x := newUctx(c, us[i], keys[us[i].key])
 				x.runUnit()
 				x.flush()
+				unitsDone.Add(1)
 				noteTime(us[i].id, time.Since(t0))
 			})
+			// no unit may be dropped silently (loaded machine, few cores): planned == executed, or the run says so
+			if n := unitsDone.Load() - before; n != int64(len(us)) {
+				c.Incomplete(fmt.Sprintf("%d of %d units were not executed (budget)", int64(len(us))-n, len(us)))
+				return false
+			}
+			return ok
 		}
 
 		// phase 1: raw operations (decides attribution of later failures)
@@ -654,18 +738,22 @@ func main() {
 		}
 		p2 = append(p2, unit{id: "malformed", sect: "malformed", cost: 1 << 30})
 		c.Set("units", len(p1)+len(p2))
+		defer func() { c.Set("units_executed", unitsDone.Load()) }()
 		if !runAll(p2) {
 			c.Incomplete("budget hit in phase 2 (API level units)")
 		}
 		pprof.StopCPUProfile()
 		c.Set("slowest_units", slowest(8))
 		bySect := map[string]float64{}
+		byKey := map[string]float64{}
 		timeMu.Lock()
 		for id, t := range times {
 			bySect[parseUnit(id).sect] += t
+			byKey[parseUnit(id).key] += t
 		}
 		timeMu.Unlock()
 		c.Set("unit_seconds_by_section", bySect)
+		c.Set("unit_seconds_by_key", byKey)
 	})
 }
 
@@ -723,7 +811,13 @@ func rawUnits(ki *keyInfo, thorough bool) []unit {
 	var us []unit
 	for _, f := range formNames {
 		fams := []string{"edge", "pow2"}
-		if thorough || (ki.bits <= 1025 && f == "precomputed") {
+		if ki.lite && !thorough {
+			fams = []string{"edge"}
+		}
+		if ki.pssOnly && !thorough && f != "precomputed" {
+			continue
+		}
+		if thorough || (!ki.lite && ki.bits <= 1025 && f == "precomputed") {
 			fams = append(fams, "pow2m1") // quick tier: only on the CRT form of keys up to 1025 bits
 		}
 		if thorough {
@@ -751,8 +845,32 @@ func allHashes() []crypto.Hash {
 
 const ctChunks = 4
 
+// liteHashes: the hashes of the lite unit set.
+var liteP1Hashes = []crypto.Hash{0, crypto.SHA256}
+var litePSSHashes = []crypto.Hash{crypto.SHA1, crypto.SHA256, crypto.SHA512}
+
 func apiUnits(ki *keyInfo, thorough bool) []unit {
+	if ki.pssOnly && !thorough {
+		return []unit{mk("pss", ki, fmt.Sprint(int(crypto.SHA256)), 5), mk("pss", ki, fmt.Sprint(int(crypto.SHA1)), 5)}
+	}
 	us := []unit{mk("p1enc", ki, "", 2), mk("oaep", ki, "", 3)}
+	if ki.stdOK {
+		us = append(us, mk("rdr", ki, "", 1))
+	}
+	if ki.lite && !thorough {
+		// lite: no ciphertext-mutation units, three hashes; everything else as for any key
+		p1h, pssh := liteP1Hashes, litePSSHashes
+		if len(ki.primes) > 3 { // 2048-bit multi-prime key (private operation without CRT): one hash each
+			p1h, pssh = []crypto.Hash{crypto.SHA256}, []crypto.Hash{crypto.SHA256}
+		}
+		for _, h := range p1h {
+			us = append(us, mk("p1sig", ki, fmt.Sprint(int(h)), 2))
+		}
+		for _, h := range pssh {
+			us = append(us, mk("pss", ki, fmt.Sprint(int(h)), 5))
+		}
+		return us
+	}
 	for _, scheme := range []string{"p1", "oaep"} {
 		for ch := 0; ch < ctChunks; ch++ {
 			us = append(us, mk("ctmut", ki, fmt.Sprintf("%s/%d", scheme, ch), 6))
@@ -789,6 +907,8 @@ func (x *uctx) runUnit() {
 		var h int
 		fmt.Sscan(x.u.arg, &h)
 		x.runPSS(crypto.Hash(h))
+	case "rdr":
+		x.runReaders()
 	case "malformed":
 		x.runMalformed()
 	default:
